@@ -54,6 +54,16 @@ type caseSpec struct {
 	again     bool
 	stopAtEnd bool
 	wd        time.Duration
+
+	// concurrent readers of one request (GetUtxoRequest.Result "supports multiple readers"):
+	// `readers` goroutines call Result on every request from the moment it is enqueued (before
+	// the scan can deliver), each with a cancel channel of its own that only the watchdog closes;
+	// one more reader (at position cancelPos) gives up by itself after cancelAfter; `late`
+	// goroutines call Result at the same time once the request has been answered.
+	readers     int
+	cancelPos   int // -1: no reader that gives up
+	cancelAfter time.Duration
+	late        int
 }
 
 var (
@@ -112,6 +122,178 @@ type liveReq struct {
 	enqErr error
 	read   bool
 	obs    string
+	rd     []*reader
+	fin    chan *reader // readers that have returned, in order of return
+}
+
+// reader: one goroutine inside GetUtxoRequest.Result.  kind "wait": its cancel channel is closed by
+// the watchdog only (a return with ErrGetUtxoCancelled is a HANG observation); kind "cancel": the
+// reader gives up by itself.
+type reader struct {
+	kind   string
+	cancel chan struct{}
+	once   sync.Once
+	done   chan struct{}
+	rep    *neutrino.SpendReport
+	err    error
+	pan    bool
+}
+
+func (r *reader) stop() { r.once.Do(func() { close(r.cancel) }) }
+
+func (r *reader) cancelled() bool { return !r.pan && errors.Is(r.err, neutrino.ErrGetUtxoCancelled) }
+
+// readerGrace: how long a reader may take to return once another reader of the same request has
+// been given the answer (a watchdog, not a measurement: on the unchanged code the others return as
+// soon as the first one has released the request's mutex).
+const readerGrace = 1500 * time.Millisecond
+
+func (w *world) spawnReader(l *liveReq, kind string, after time.Duration) *reader {
+	rd := &reader{kind: kind, cancel: make(chan struct{}), done: make(chan struct{})}
+	req, fin := l.req, l.fin
+	go func() {
+		defer func() {
+			if r := recover(); r != nil {
+				rd.pan = true
+			}
+			close(rd.done)
+			fin <- rd
+		}()
+		rd.rep, rd.err = req.Result(rd.cancel)
+	}()
+	if kind == "cancel" {
+		time.AfterFunc(after, rd.stop)
+	}
+	return rd
+}
+
+// spawnReaders starts the case's concurrent readers of a request that has just been enqueued.
+func (w *world) spawnReaders(l *liveReq) {
+	c := w.c
+	if c.readers == 0 || l.req == nil || l.enqErr != nil {
+		return
+	}
+	l.fin = make(chan *reader, c.readers+1)
+	for i := 0; i <= c.readers; i++ {
+		if i == c.cancelPos {
+			l.rd = append(l.rd, w.spawnReader(l, "cancel", c.cancelAfter))
+		}
+		if i < c.readers {
+			l.rd = append(l.rd, w.spawnReader(l, "wait", 0))
+		}
+	}
+}
+
+func (w *world) showReader(rd *reader) string {
+	switch {
+	case rd.pan:
+		return "PANIC"
+	case rd.cancelled() && rd.kind == "cancel":
+		return "cancelled"
+	}
+	return w.showResult(rd.rep, rd.err)
+}
+
+// resultReaders is result() for a request with concurrent readers: the request's answer is what the
+// first reader to return with one was given.  No call of Result is made from here while readers
+// are inside it (a reader holding the request's mutex would park this goroutine with no way out).
+func (w *world) resultReaders(l *liveReq, wd time.Duration) string {
+	start := time.Now()
+	for {
+		select {
+		case rd := <-l.fin:
+			if rd.cancelled() {
+				continue // the reader that gave up on purpose (or one the watchdog released)
+			}
+			return w.showReader(rd)
+		case <-time.After(2 * time.Millisecond):
+		}
+		w.mu.Lock()
+		spinning := w.bestRun > 2000 || w.k > 400
+		idleFor := time.Since(w.lastCall)
+		w.mu.Unlock()
+		slow := !spinning && time.Since(start) >= wd && idleFor >= wd
+		if !spinning && !slow {
+			continue
+		}
+		// nobody was answered: release every reader, then make sure no answer is buffered
+		for _, rd := range l.rd {
+			rd.stop()
+		}
+		for _, rd := range l.rd {
+			select {
+			case <-rd.done:
+				if !rd.cancelled() {
+					return w.showReader(rd)
+				}
+			case <-time.After(2 * time.Second):
+			}
+		}
+		closed := make(chan struct{})
+		close(closed)
+		for i := 0; i < 24; i++ {
+			if s := w.guardedResult(l, closed); s != "HANG" {
+				return s
+			}
+		}
+		if slow {
+			w.mu.Lock()
+			w.slowHangs++
+			w.mu.Unlock()
+		}
+		return "HANG"
+	}
+}
+
+// guardedResult: one Result call under a watchdog of its own (a reader that never returns may hold
+// the request's mutex).
+func (w *world) guardedResult(l *liveReq, cancel chan struct{}) string {
+	res := make(chan string, 1)
+	go func() {
+		defer func() {
+			if r := recover(); r != nil {
+				res <- "PANIC"
+			}
+		}()
+		rep, err := l.req.Result(cancel)
+		res <- w.showResult(rep, err)
+	}()
+	select {
+	case s := <-res:
+		return s
+	case <-time.After(2 * time.Second):
+		return "HANG"
+	}
+}
+
+var readerHangs int
+
+// collect waits (bounded) for every reader in rds and returns what each was given, in spawn order.
+// answered: the request has been answered, so every reader must return within the grace period.
+func (w *world) collect(rds []*reader, answered bool) string {
+	deadline := time.Now()
+	if answered {
+		deadline = deadline.Add(readerGrace)
+	}
+	obs := make([]string, len(rds))
+	for i, rd := range rds {
+		select {
+		case <-rd.done:
+		case <-time.After(time.Until(deadline)):
+			rd.stop()
+			select {
+			case <-rd.done:
+			case <-time.After(2 * time.Second):
+				obs[i] = "HANG stuck"
+				continue
+			}
+		}
+		obs[i] = w.showReader(rd)
+		if obs[i] == "HANG" && answered {
+			readerHangs++
+		}
+	}
+	return strings.Join(obs, " | ")
 }
 
 func (w *world) hashOfTx(txid int) chainhash.Hash {
@@ -164,6 +346,11 @@ func build(c *caseSpec) *world {
 		w.heightOf[bh] = h
 		prev = bh
 	}
+	// every hash a request may name exists before the scanner's goroutines start (enqueue runs
+	// inside a callback while the main goroutine renders results)
+	for _, r := range c.reqs {
+		w.hashOfTx(r.txid)
+	}
 	return w
 }
 
@@ -201,6 +388,7 @@ func (w *world) enqueue(l *liveReq) {
 		PkScript: script(w.scriptOf(l.spec.txid, l.spec.idx)),
 	}
 	l.req, l.enqErr = w.sc.Enqueue(in, uint32(l.spec.birth), nil)
+	w.spawnReaders(l)
 }
 
 func (w *world) getBlockHash(height int64) (*chainhash.Hash, error) {
@@ -354,6 +542,9 @@ func (w *world) result(l *liveReq, wd time.Duration) (s string) {
 			s = "PANIC"
 		}
 	}()
+	if len(l.rd) > 0 && !l.read {
+		return w.resultReaders(l, wd)
+	}
 	// The tip depends only on the number of GetBlockHash calls, so once the batch manager calls
 	// BestSnapshot over and over without one, nothing can change any more: a caller still waiting
 	// then waits for ever.  Otherwise (scanner idle) only the watchdog can tell.
@@ -468,12 +659,22 @@ func runCase(t *tr.W, c *caseSpec) (hangs int) {
 		t.Line("stop %d", c.stop)
 		t.Hit("inject.stop")
 	}
+	if c.readers > 0 {
+		t.Line("rdr %d %d %d", c.readers, c.cancelPos, c.late)
+		t.Hit(fmt.Sprintf("readers.n%d", c.readers))
+		if c.cancelPos >= 0 {
+			t.Hit("readers.with-canceller")
+		}
+	}
 
 	for _, l := range w.live {
 		if l.spec.k == 0 {
 			w.enqueue(l)
 			l.spec.k = -1000000
 		}
+	}
+	if c.readers > 0 {
+		time.Sleep(200 * time.Microsecond) // the readers are inside Result before the scan can deliver
 	}
 	w.sc.Start()
 
@@ -537,6 +738,25 @@ func runCase(t *tr.W, c *caseSpec) (hangs int) {
 			hangs++
 		}
 	}
+	// Every concurrent reader of a request must have been given what the first one was given, and
+	// none may still be waiting once the request has been answered.
+	for _, l := range w.live {
+		if len(l.rd) == 0 {
+			continue
+		}
+		answered := l.read && l.obs != "HANG" && l.obs != "PANIC"
+		t.Op(fmt.Sprintf("readers %d", l.spec.id), w.collect(l.rd, answered))
+		t.Hit("readers")
+		if answered && c.late > 0 {
+			l.fin = make(chan *reader, c.late)
+			var rds []*reader
+			for i := 0; i < c.late; i++ {
+				rds = append(rds, w.spawnReader(l, "wait", 0))
+			}
+			t.Op(fmt.Sprintf("late %d", l.spec.id), w.collect(rds, true))
+			t.Hit("readers.late")
+		}
+	}
 	// A second Result call must return what the first returned.  (If it blocks, each call costs a
 	// watchdog period: after a few such observations only the probe keeps asking.)
 	if c.again || againBudget > 0 {
@@ -595,7 +815,7 @@ func empty() map[int]bool { return map[int]bool{} }
 func probes() []*caseSpec {
 	mk := func(kind string, blocks [][]txSpec, tip int, reqs []reqSpec) *caseSpec {
 		return &caseSpec{kind: kind, blocks: blocks, tip0: tip, reqs: reqs, fp: empty(), hashErr: empty(),
-			fltrErr: empty(), blkErr: empty(), wd: 2 * time.Second, stopAtEnd: true}
+			fltrErr: empty(), blkErr: empty(), wd: 2 * time.Second, stopAtEnd: true, cancelPos: -1}
 	}
 	one := [][]txSpec{{{id: 1, nout: 1}}, {}, {}}
 	// F5: the second request (later start height) must not erase the output found for the first.
@@ -613,14 +833,21 @@ func probes() []*caseSpec {
 	shared := [][]txSpec{{{id: 1, nout: 2, scr: []int{7, 7}}}, {{id: 2, ins: []op{{1, 0}}, nout: 1}}, {},
 		{{id: 3, ins: []op{{1, 1}}, nout: 1}}, {}}
 	p5 := mk("probe-shared-script", shared, 4, []reqSpec{{1, 1, 0, 0, 0}, {2, 1, 1, 0, 0}})
-	return []*caseSpec{p1, p2, p3, p4, p5}
+	// several goroutines inside Result of one request before the scan delivers, one of them giving
+	// up; two more once it has been answered.  Request 2 arrives during the scan.
+	p6 := mk("probe-readers", shared, 4, []reqSpec{{1, 1, 0, 0, 0}, {2, 1, 1, 0, 2}})
+	p6.readers, p6.cancelPos, p6.cancelAfter, p6.late = 3, 1, 50*time.Microsecond, 2
+	// two readers and nothing else
+	p7 := mk("probe-readers-two", one, 2, []reqSpec{{1, 1, 0, 0, 0}})
+	p7.readers = 2
+	return []*caseSpec{p1, p2, p3, p4, p5, p6, p7}
 }
 
 // ---- random cases ----------------------------------------------------------------------------
 
 func gen(r *rand.Rand, risky bool) *caseSpec {
 	c := &caseSpec{kind: "rand", fp: empty(), hashErr: empty(), fltrErr: empty(), blkErr: empty(),
-		wd: 2 * time.Second}
+		wd: 2 * time.Second, cancelPos: -1}
 	nb := 2 + r.Intn(7)
 	type created struct {
 		txid, nout, h int
@@ -773,6 +1000,7 @@ func init() {
 			runCase(t, c)
 		}
 		r := tr.Rng(10)
+		rr := tr.Rng(11) // concurrent readers: a stream of its own, the cases themselves stay as they were
 		n := 1200 * tr.EnvInt("VERIF_BUDGET", 1)
 		hangBudget := 4
 		if thorough {
@@ -795,6 +1023,15 @@ func init() {
 			}
 			c := gen(r, hangBudget > 0)
 			c.stopAtEnd = i%40 == 0
+			// one case in five is read by several goroutines at once (as long as that does not
+			// end in watchdog waits over and over: the probes keep asking in any case)
+			x, nr, cp, ca, late := rr.Intn(5), 2+rr.Intn(3), rr.Intn(8)-3, rr.Intn(300), rr.Intn(3)
+			if x == 0 && readerHangs < 3 {
+				c.readers, c.late = nr, late
+				if cp >= 0 && cp <= nr {
+					c.cancelPos, c.cancelAfter = cp, time.Duration(ca)*time.Microsecond
+				}
+			}
 			hangBudget -= runCase(t, c)
 		}
 	})
